@@ -5,13 +5,15 @@ open GA.Drv GA.Arr
 
 def digest (l : List Nat) : Nat := l.foldl (fun h v => (h * 1000003 + v + 1) % 18446744073709551557) 0
 
-def showOut : Option Out → String
-  | some o => s!"len={o.len} vals={digest o.vals} log={digest o.log} nlog={o.log.length}"
+def showOut (zst : Bool := false) : Option Out → String
+  | some o => s!"len={o.len} vals={digest (if zst then o.vals.map (fun _ => 0) else o.vals)} log={digest o.log} nlog={o.log.length}"
   | none => "unknown"
 
 def answer (kv : KV) : String :=
   let boxed := kv.getD "box" "0" = "1"
   let ev (i : Inv) := if boxed then evalBox i else evalArr i
+  -- zero-sized elements carry no value: the harness reports 0 for each
+  let zst := kv.getD "kind" "" = "zst"
   match kv.getD "op" "" with
   | "constpos" =>
     -- is the `arr!` form usable in a const position?
@@ -29,15 +31,15 @@ def answer (kv : KV) : String :=
     if GA.Gen.Arr.helperNames.contains (kv.getD "name" "") then "captured" else "accept"
   | "list" =>
     match kv.nat? "k" with
-    | some k => showOut (ev (.list ((List.range k).map fun i => ⟨1000 + 7 * i, [i]⟩) (kv.natD "trail" 0)))
+    | some k => showOut zst (ev (.list ((List.range k).map fun i => ⟨1000 + 7 * i, [i]⟩) (kv.natD "trail" 0)))
     | none => "bad-op"
   | "repty" =>
     match kv.nat? "n" with
-    | some n => showOut (ev (.repTy ⟨1000, [0]⟩ n))
+    | some n => showOut zst (ev (.repTy ⟨1000, [0]⟩ n))
     | none => "bad-op"
   | "repconst" =>
     match kv.nat? "n" with
-    | some n => showOut (ev (.repConst ⟨1000, [0]⟩ n))
+    | some n => showOut zst (ev (.repConst ⟨1000, [0]⟩ n))
     | none => "bad-op"
   | _ => "bad-op"
 
